@@ -49,6 +49,9 @@ def main(what, runs, seed):
         for pid in os.environ.get("P2SIM_PROPS", ",".join(PROPS)).split(","):
             listing(pid, runs or 100, seed, int(os.environ.get("P2SIM_WORKERS", "8")))
         return 0
+    if what == "sensitivity":
+        # every reversed fix and every seeded change must be reported by its property's check
+        return subprocess.call([sys.executable, os.path.join(build.VERIF, "tools", "sensitivity.py")])
     if what != "determinism":
         print("unknown selfcheck %r" % what, file=sys.stderr)
         return 2
